@@ -39,7 +39,9 @@ type vconn struct {
 	onWritten  func(c *vconn) // peer script; called with mu held after every write
 	wake       *time.Timer
 	forced     bool
-	peerWrites int // real-TLS peer: Write calls of the server so far
+	timeouts   int  // consecutive Reads answered with a timeout
+	spun       bool // the dialer kept reading on an expired deadline
+	peerWrites int  // real-TLS peer: Write calls of the server so far
 }
 
 func newVconn() *vconn {
@@ -114,8 +116,16 @@ func (c *vconn) Read(p []byte) (n int, err error) {
 		}
 		if expired(c.rdl) {
 			err = timeoutError{}
+			// a caller that keeps retrying on an expired deadline never lets the bubble go idle (virtual time
+			// stands still): after 2000 timeouts in a row the connection breaks for good and records the spin
+			if c.timeouts++; c.timeouts > 2000 {
+				c.spun = true
+				c.closed = true
+				c.forced = true
+			}
 			break
 		}
+		c.timeouts = 0
 		if len(c.inbox) > 0 {
 			n = copy(p, c.inbox[0])
 			if n == len(c.inbox[0]) {
@@ -251,12 +261,13 @@ type snapshot struct {
 	rdl, wdl     time.Time
 	ops          int
 	peerWrites   int
+	spun         bool
 }
 
 func (c *vconn) snap() snapshot {
 	c.mu.Lock()
 	defer c.mu.Unlock()
-	s := snapshot{events: len(c.log), rdl: c.rdl, wdl: c.wdl, ops: c.ops, peerWrites: c.peerWrites}
+	s := snapshot{events: len(c.log), rdl: c.rdl, wdl: c.wdl, ops: c.ops, peerWrites: c.peerWrites, spun: c.spun}
 	for _, e := range c.log {
 		if e.Kind == "Close" {
 			s.closedByDial = true
